@@ -177,6 +177,16 @@ def make_case(idx, tests):
              'src': b'1\ns/a/b/\nec sourced\n', 'tags': b'foo\tf2\t/o/\nmain\tf1\t1\nmain\tf3\t/three/\n'}
     rows, cols = R.choice(WINDOWS)
     mode = R.choice(['v', 'v', 'v', 'se', 'se', 'e'])
+    ftname = None
+    if R.random() < 0.3:
+        # other file types: each has its own set of highlight patterns (syn.c / conf.h), definition and section patterns
+        ftname = R.choice(['t.c', 't.h', 't.sh', 't.go', 't.py', 't.tex', 't.ms', 't.1', 'Makefile', 't.mk', 't.diff', 't.patch', 'letter', 'mbox', 't.bib', 't.nm', 'ls', 't.roff'])
+        code = ['#include <stdio.h>', 'int main(void)', '{', '\treturn foo("str\\"", \'c\') /* c */ + 0x1f; // x', '}', 'static void foo(int a) {', 'def foo(x):', 'class Bar:', 'func (r *T) foo() {', 'foo() {', 'function bar {',
+                '.de foo', '.nr x 1', '\\fBbold\\fP \\*(xx \\n(yy', '\\section{a} % c', '$x^2$ \\begin{foo}', 'foo: bar baz', '\t$(CC) -o $@ $<', '+added', '-removed', '@@ -1,2 +1,3 @@', 'diff --git a/x b/x', 'From: a@b', 'Subject: hi', '> quoted',
+                '@article{key,', 'author = {A},', '# comment', '"unterminated', "'x", '/* open comment', 'f2:2:3', 'f3:1', 't.c:4: error', 'if (x) else while for return', 'import os', 'package main', 'var x = `raw`']
+        for _ in range(R.randint(1, 8)):
+            lines.insert(R.randint(0, len(lines)), R.choice(code))
+        files[ftname] = gen.buf_bytes(lines, R.random() < 0.9)
     pool = gen.PUNCT + gen.ASCII_WORDS + gen.MB_WORDS + ['\x1b', '\n', ':', '\x17', '"', '1', '9', 'd', 'c', 'y', 'p', 'u', '.', '@', 'q', 'g', 'z', 'G', '\x12', '\x16', '\x0b']
     src = R.random()
     if mode == 'v':
@@ -205,6 +215,8 @@ def make_case(idx, tests):
             cand = [t for m, t in tests if m == 'e']
             data = mutate(R, R.choice(cand), pool) if cand else b'd'
     args = R.choice([['f1'], ['f1'], ['f1', 'f2'], ['f1', 'f2', 'f3'], [], ['nosuch']])
+    if ftname:
+        args = R.choice([[ftname], [ftname, 'f2'], ['f1', ftname]])
     return {'idx': idx, 'mode': mode, 'rows': rows, 'cols': cols, 'files': files, 'args': args, 'data': data}
 
 
@@ -299,7 +311,7 @@ def run(tier, V):
     cov = {'slow_streams_finished_only_by_the_plain_build': slow, 'msan_streams': nm, 'evaluations': n + nm, 'distinct_nontrivial': n + nm, 'streams_by_mode': modes, 'window_sizes_seen': sorted(wins), 'stream_bytes': nbytes,
            'test_scripts_used_as_seeds': len(tests), 'odd_seeds': len(VI_ODD) + len(EX_MISC),
            'rule': ('%d streams: vi grammar programs, ex grammar programs, hand-written odd-but-legal seeds, 1%% filters/pipe writes of 100-500 KB buffers through commands that exit early, 5%% capacity streams (17+ buffers, 128-byte indents, 512-byte ex lines, 120-byte words, 1 KiB paths, 4 KiB registers, many splits, 64+ groups), mutations (truncate/splice/duplicate/swap/insert valid UTF-8) of those and of the %d test scripts; '
-                    'x random buffers (ASCII, multi-byte, wide, combining, RTL, long lines, empty, no final newline) x window sizes 2x2..60x200 x -v / -s -e / -e, run as uid nobody under ASan+UBSan (and a further slice under MemorySanitizer) with a whitelist shell. '
+                    'x 30%% file names of the other file types (c, sh, go, py, roff, tex, mk, diff, mail, bib, nm, ls: their highlight, definition and section patterns) with code-like lines x random buffers (ASCII, multi-byte, wide, combining, RTL, long lines, empty, no final newline) x window sizes 2x2..60x200 x -v / -s -e / -e, run as uid nobody under ASan+UBSan (and a further slice under MemorySanitizer) with a whitelist shell. '
                     'every stream is distinct (seeded index) and non-trivial (at least one command).' % (n, len(tests))),
            'samples': samples[:6] or [{'note': 'no sample'}]}
     assumptions = ['ASan+UBSan observe out-of-bounds/use-after-free/UB in code the streams reach; a clean run is not a proof of memory safety',
